@@ -15,6 +15,7 @@
 //	codeid  code identity: 2-3 contracts that all jump in one transaction, layouts enumerated against each other
 //	createret  CREATE/CREATE2 x init-code shapes (deposit refused for gas / size, revert, fault) x what the caller then sees
 //	precompile  CALL/CALLCODE/top-level call to 0x01..0x09 x value x gas x input: a failed frame changes nothing, consumes its gas
+//	outwin  the output window of the 4 call opcodes after return / revert / fault / out of gas, read back from memory
 //	wrap    state-changing tokens inside STATICCALL / reverting / failing / nested-reverting frames and at
 //	        the bottom of a self-recursion to the depth limit; stack-limit programs; loops
 package main
@@ -758,6 +759,7 @@ func main() {
 	phase("codeid", runCodeID)
 	phase("createret", runCreateRet)
 	phase("precompile", runPrecompiles)
+	phase("outwin", runOutWin)
 	phase("singles", runSingles)
 	phase("sweep", runSweep)
 	phase("create", runCreateTop)
@@ -848,7 +850,8 @@ func main() {
 		"the create-return scenarios (CREATE / CREATE2 x 9 init-code shapes {small, empty, stop, 1000-byte deposit with the frame's gas swept across every schedule's code-store threshold, 30000 and 40000 bytes, revert with / without data, fault} "+
 		"x {RETURNDATASIZE, RETURNDATACOPY of 1 byte, RETURNDATACOPY of everything} x {in a called frame, in the top frame}; absolute oracle: the return-data buffer is empty after every creation that did not revert, see createret_kvm_outcomes); "+
 		"the precompile scenarios (CALL / CALLCODE / transaction-style top-level call to each address 0x01..0x09 x value {0,1,7} x gas {0, just below the price, 500000, 501000} x inputs {empty, valid, rejected, unpayable}, "+
-		"returning flag, both balances, EXTCODEHASH / EXTCODESIZE of the target, RETURNDATASIZE; absolute oracle: a failed frame changes no state and consumes the gas it was given, a successful CALL moves exactly the value, see precompile_kvm_outcomes). "+
+		"returning flag, both balances, EXTCODEHASH / EXTCODESIZE of the target, RETURNDATASIZE; absolute oracle: a failed frame changes no state and consumes the gas it was given, a successful CALL moves exactly the value, see precompile_kvm_outcomes); "+
+		"the output-window scenarios (4 call opcodes x callee {returns / reverts with a 32-byte payload, reverts empty, faults, out of gas} x retSize {0,16,32,64}, window pre-filled with a marker and read back through MLOAD / SHA3 / RETURN). "+
 		"Token sequences of length <= 2, single bodies and (thorough) length 3 and raw codes run under call data {empty,32B,36B} x gas {tiny,ample}; quick: length 3 under (36B, ample), raw codes under {(36B,ample),(empty,ample),(36B,tiny)}; thorough length 4 under (36B, ample). Everything under both instruction sets. "+
 		"evaluations = executions on KVM plus on the reference. A program is distinct by construction (unique code bytes) and counted non-trivial when, for at least one (input, gas, instruction set), "+
 		"KVM dispatched >= 1 instruction past the prelude AND no frame on either side ran out of gas or fetched an excluded opcode, so the differential oracle was applied.")
